@@ -289,6 +289,11 @@ Theorem C13_cell_eqb_sound : forall a b, cell_eqb a b = true ->
 Proof. exact cell_eqb_sound. Qed.
 Print Assumptions C13_cell_eqb_sound.
 
+(* the <msa> checker (bit 7) compares with Leibniz equality *)
+Theorem C13_msa_checker_sound : forall a b, state_eqb msa_read_eqb a b = true -> a = b.
+Proof. exact msa_state_eqb_eq. Qed.
+Print Assumptions C13_msa_checker_sound.
+
 Theorem C13_checker_complete : forall tbl pretty pre stamp w,
   wl_okb tbl w = true -> closed_pre pre -> Forall skipline stamp ->
   exists ls, write pretty pre stamp w = Ok ls /\ same_objectb w (read tbl ls) = true.
